@@ -5,10 +5,12 @@ PROP = dict(
                  "handshake": ("handshake_run", "Z.eqb", "(Z * Z * bool * bool * bool * bool) * Z"),
                  "readInt24": ("readInt24_run", "Z.eqb", "list Z * Z"),
                  "read_msg": ("read_msg_run", "zz15_eqb", "(Z * bool * list Z * bool * bool) * (Z * Z)"),
-                 "decode_packet": ("decode_packet_run", "Z.eqb", "(Z * bool * bool * Z * bool) * Z")}},
-    suites=[{"bin": "c15", "name": "handler", "n": {"quick": 320, "thorough": 4000}, "timeout": 3000},
+                 "decode_packet": ("decode_packet_run", "Z.eqb", "(Z * bool * bool * Z * bool) * Z"),
+                 "session_run": ("session_run", "phase_eqb", "(phase * list event) * phase")}},
+    suites=[{"bin": "c15", "name": "handler", "n": {"quick": 200, "thorough": 4000}, "timeout": 3000},
             {"bin": "c15", "name": "frames", "n": {"quick": 500, "thorough": 20000}},
-            {"bin": "c15", "name": "packets", "n": {"quick": 800, "thorough": 30000}}],
+            {"bin": "c15", "name": "packets", "n": {"quick": 800, "thorough": 30000}},
+            {"bin": "c15", "name": "session", "n": {"quick": 6, "thorough": 40}, "timeout": 600}],
     rule="handler: the real protocol.ProtocolManager on a mock chain (height 20..60 or 520..670 > MaxHashFetch, with account blocks), SubProtocols[0].Run driven over p2p.MsgPipe in child processes "
          "(a panic on a node goroutine = child exit status); sessions with handshake variants {ok, wrong genesis/network/version, first message not status, garbage status, oversized status}; "
          "after the handshake up to 25 requests per session: GetBlockHashes (known/unknown/zero hash x amounts {0,1,2,3,511,512,513,H-1,H,H+1,2^32,2^63,2^64-1,random}), "
